@@ -7,7 +7,7 @@ package utreexo
 // then Proof.Undo with that block's data; obligations O1..O6 kept separate.
 
 // kfDestroyed: open finding F-C08-2 applies when the undone block's additions overwrote an empty root.
-func c08CheckUndone(c *lightClient, prevHeld []int, b *refBlockT, rm *refForest, v *refView, prevStump Stump, first int, id string, kfDestroyed bool) {
+func c08CheckUndone(c *lightClient, prevHeld []int, b *refBlockT, rm *refForest, v *refView, prevStump Stump, first int, id string, kfDestroyed bool, lost *c08Lost) {
 	// expected: leaves held after the block that already existed before it = prevHeld minus deleted
 	var want []int
 	for _, s := range prevHeld {
@@ -56,9 +56,13 @@ func c08CheckUndone(c *lightClient, prevHeld []int, b *refBlockT, rm *refForest,
 				verifAssert(c.proof.Targets[i] == v.nodes[x].pos, id+".O4-position")
 			}
 		}
-		verifAssertKF(found, id+".O3-not-lost", "F-C08-2", kfDestroyed)
+		// a leaf lost under the open finding at an earlier undo step stays lost at the deeper ones
+		verifAssertKF(found, id+".O3-not-lost", "F-C08-2", kfDestroyed || lost.has(s))
 		if !found {
 			allThere = false
+			if lost != nil {
+				lost.slots = append(lost.slots, s)
+			}
 		}
 	}
 	if !allThere || n != len(want) {
@@ -77,6 +81,21 @@ func c08CheckUndone(c *lightClient, prevHeld []int, b *refBlockT, rm *refForest,
 		_, err := Verify(prevStump, c.hashes, c.proof)
 		verifAssert(err == nil, id+".O6-verifies")
 	}
+}
+
+// c08Lost: slots of leaves the client lost under the open finding F-C08-2 at an earlier undo step.
+type c08Lost struct{ slots []int }
+
+func (l *c08Lost) has(s int) bool {
+	if l == nil {
+		return false
+	}
+	for _, x := range l.slots {
+		if x == s {
+			return true
+		}
+	}
+	return false
 }
 
 func HarnessC08Step() {
@@ -103,7 +122,7 @@ func HarnessC08Step() {
 		return
 	}
 	c.hashes = hs
-	c08CheckUndone(c, prevHeld, b, rm, v, prevStump, first, "C08.step", len(ud.ToDestroy) > 0)
+	c08CheckUndone(c, prevHeld, b, rm, v, prevStump, first, "C08.step", len(ud.ToDestroy) > 0, nil)
 	verifReach("C08.step")
 }
 
@@ -141,6 +160,7 @@ func HarnessC08History() {
 		rm = rm.apply(b)
 	}
 	d := verifChoose("undoDepth", 1, blocks)
+	lost := &c08Lost{}
 	for k := blocks - 1; k >= blocks-d; k-- {
 		r := recs[k]
 		hs, err := c.proof.Undo(uint64(len(r.b.adds)), c.stump.NumLeaves, r.b.proof.Targets, r.b.hashes, c.hashes, r.toDestroy, r.b.proof)
@@ -150,10 +170,19 @@ func HarnessC08History() {
 		}
 		c.hashes = hs
 		c.stump = r.prevStump
-		c08CheckUndone(c, r.prevHeld, r.b, r.rm, r.v, r.prevStump, r.first, "C08.history", len(r.toDestroy) > 0)
+		// "its leaves that already existed before the block": what the client is specified to hold at this
+		// moment, restricted to slots older than the block (at depth 1 this is what it held before the block
+		// minus the block's deletions; deeper, leaves deleted by a block undone earlier do not come back)
+		var eff []int
+		for _, s := range c.held {
+			if s < r.first {
+				eff = append(eff, s)
+			}
+		}
+		c08CheckUndone(c, eff, r.b, r.rm, r.v, r.prevStump, r.first, "C08.history", len(r.toDestroy) > 0, lost)
 		// what the client is specified to hold now
 		var held []int
-		for _, s := range r.prevHeld {
+		for _, s := range eff {
 			del := false
 			for _, x := range r.b.delSlots {
 				if x == s {
